@@ -493,10 +493,13 @@ def line_claim(lat, side, idx):
 def caps_for(need, rng, small=True):
     """caps to run: the tight one (exactly the exact bond size), a generous one, and truncating ones"""
     out = [max(need, 1)]
-    if rng.random() < 0.35:
+    if rng.random() < 0.25:
         out.append(max(need, 1) * 2 + 1)
     if small and need > 1:
-        out.append(rng.choice(sorted({1, 2, 3, max(1, need - 1), max(1, need // 2)} - {need})))
+        out.append(need - 1)                 # one below: a bond of exactly cap + 1 must be compressed
+        rest = sorted({1, 2, 3, max(1, need // 2)} - {need, need - 1})
+        if rest and rng.random() < 0.5:
+            out.append(rng.choice(rest))
     return out
 
 
@@ -765,7 +768,9 @@ def env_jobs_2d(lat, rng, n, stats):
         cfg = {"mode": mode, "dense": dense, "what": what}
         if layered and mode not in ("full-bond", "projector2d") and rng.random() < 0.6:
             cfg["layer_tags"] = rng.choice([("KET", "BRA"), ("BRA", "KET")])
-        kw0 = {k: cfg[k] for k in ("layer_tags",) if k in cfg}
+        if what != "plaq" and mode != "full-bond" and rng.random() < 0.3:
+            cfg["equalize_norms"] = 1.0
+        kw0 = {k: cfg[k] for k in ("layer_tags", "equalize_norms") if k in cfg}
         if what == "line":
             side = rng.choice(SIDES_2D)
             cfg["side"] = side
